@@ -7,7 +7,7 @@ from lib.coqterm import cbytes, cbool, copt, clist, cN, hx, unhx
 
 ID = "C21"
 QUICK_N = 3000
-THOROUGH_N = 60000
+THOROUGH_N = 24000
 SHARD = 250
 RULE = ("Each case = options (proxyauth on/off, socks5_auth hook verdict, connection_strategy eager/lazy, "
         "OpenConnection failing) + a client byte stream + a segmentation. Streams: 70% built from RFC 1928/1929 "
